@@ -84,6 +84,8 @@ def run_job(job, ctx):
         ai = fake_ai.instance()
         ai.begin(scenario.ai_script(s))
         args = ["**"] if diff else []
+        if diff and r.random() < 0.5:
+            args = r.choice([["**"], []]) + ["--ignore", r.choice(s.order)]     # options are part of the input
         subdirs = sorted({os.path.dirname(p) for p in s.files if os.path.dirname(p)})
         results = []
         configs = []
